@@ -13,9 +13,10 @@ import (
 )
 
 type Gen struct {
-	T    *tape.Tape
-	Tree *faulttree.Tree
-	Ctx  *faulttree.Node
+	T       *tape.Tape
+	Tree    *faulttree.Tree
+	Ctx     *faulttree.Node
+	NoFuncs bool // never emit a function call (keeps the function table untouched)
 	// reach probes
 	UsedDeref, UsedCurrent, UsedPred, UsedText, UsedFunc bool
 }
@@ -69,6 +70,9 @@ func (g *Gen) Expr(depth int) string {
 }
 
 func (g *Gen) Func(depth int) string {
+	if g.NoFuncs {
+		return g.Path(depth)
+	}
 	g.UsedFunc = true
 	f := fnames[g.T.Draw(len(fnames))]
 	n := f.arity
